@@ -15,7 +15,7 @@ CHECKS = {
  "C03": ("exploration", "runtime monitor: reference-model oracle over recorded calls",
          "Binary derivative k in {3,7,15}, autocorrelation d in {1,2,8,16,32}, cumulative sums forward/backward compared with the reference; prescribed-excursion walks put the maximum partial sum on a log grid from 1 to n in both directions.", REF, "4/C03"),
  "C04": ("exploration", "runtime monitor: reference-model oracle + panic events, exhaustive small-block enumeration",
-         "Rank, linear complexity and Maurer results compared with GF(2) elimination / Berlekamp-Massey / direct Maurer references; every rank 0..32, every m-bit block for m<=14 (16 thorough) as single-block calls (exhaustive at those m), special blocks at m=500/1000/5000, pattern-starved Maurer initialisation; a panic on an admissible input is a violation.", REF, "4/C04"),
+         "Rank, linear complexity and Maurer results compared with GF(2) elimination / Berlekamp-Massey / direct Maurer references; every rank 0..32, every m-bit block for m<=16 (18 thorough) as single-block calls (exhaustive at those m), special blocks at m=500/1000/5000, pattern-starved Maurer initialisation; a panic on an admissible input is a violation.", REF, "4/C04"),
  "C05": ("exploration", "runtime monitor: reference-model oracle (independent FFT validated by direct summation)",
          "DFT test compared with the statistic computed from an independent FFT whose bins are validated against direct summation in the same run; N1 is an interval when a magnitude is within 1e-9*sqrt(n) of the threshold. n up to 65537 quick, 2^22 thorough; n = 10^8 not run (6 GB per call).", REF, "4/C05"),
  "C06": ("exploration", "runtime monitor: exact-arithmetic oracle",
